@@ -512,6 +512,11 @@ def _val(g, v):
     return v
 
 
+def _tb(s):
+    """is a stack proxy bound: something is on the stack and the top item is not None (top's documented contract)"""
+    return bool(s) and s[-1] is not None
+
+
 def _rs(g, s):
     """rendered stack"""
     return tuple([render(_val(g, x)) for x in s])
@@ -557,12 +562,12 @@ def m_observe(g, m, ext=True):
         _rs(g, s),
         c,
         render(_val(g, dd["x"])) if "x" in dd else "RE",
-        render(_val(g, s[-1])) if s else "RE",
+        render(_val(g, s[-1])) if _tb(s) else "RE",
         c if c != UNSET else "RE",
         render(_val(g, dd["l"])) if "l" in dd else "RE",
-        m_named(bool(s), _val(g, s[-1]) if s else None, "v"),
+        m_named(_tb(s), _val(g, s[-1]) if s else None, "v"),
         dd["y"] if "y" in dd else "RE",
-        m_named(bool(s), _val(g, s[-1]) if s else None),
+        m_named(_tb(s), _val(g, s[-1]) if s else None),
         m_named(c != UNSET, c),
         dd["x"] if "x" in dd else "nox",
         d2, d2, s2, (s2[-1] if s2 else None), (dd2["z"] if "z" in dd2 else "RE"),
@@ -614,7 +619,7 @@ def m_do(g, m, op, cid):
         g.boxes[s[-1][1]].v = int(op[7:])      # in place: every context holding this very object sees it (by value)
         return m, None
     if op == "proxy v":
-        return m, m_rd(g, bool(s), s[-1] if s else None, name="v")
+        return m, m_rd(g, _tb(s), s[-1] if s else None, name="v")
     if op == "pop":
         return ((d, s[:-1], c, d2, s2), render(_val(g, s[-1]))) if s else (m, None)
     if op == "top":
@@ -629,19 +634,19 @@ def m_do(g, m, op, cid):
         return m, (m_rd(g, "x" in dd, dd.get("x")), m_rd(g, "x" in dd, dd.get("x"), MSG_X),
                    m_rd(g, "y" in dd, dd.get("y")))
     if op == "proxy top":
-        return m, (m_rd(g, bool(s), s[-1] if s else None), m_rd(g, bool(s), s[-1] if s else None, name="real"))
+        return m, (m_rd(g, _tb(s), s[-1] if s else None), m_rd(g, _tb(s), s[-1] if s else None, name="real"))
     if op == "proxy cv":
         return m, (m_rd(g, c != UNSET, c), m_rd(g, c != UNSET, c, MSG_CV, name="real"))
     if op == "rd x":
         return m, m_rd(g, "x" in dd, dd.get("x"))
     if op == "rd top":
-        return m, m_rd(g, bool(s), s[-1] if s else None)
+        return m, m_rd(g, _tb(s), s[-1] if s else None)
     if op == "rd cv":
         return m, m_rd(g, c != UNSET, c)
     if op == "bat x":
         return m, m_battery(INT_BATTERY, "x" in dd, dd.get("x"))
     if op == "bat top":
-        return m, m_battery(INT_BATTERY, bool(s), s[-1] if s else None)
+        return m, m_battery(INT_BATTERY, _tb(s), s[-1] if s else None)
     if op == "bat cv":
         if c != UNSET and not hasattr(c, "real"):
             return m, tuple(ANY for _ in INT_BATTERY)       # the bound object has no such attribute: not our subject
@@ -752,7 +757,12 @@ BOX_LINE = ["pushbox 1", "pushbox 2", "rebind 3", "pop", "rd top"]
 # by the same or by another context; it must yield the opening context's attributes as they were when it was opened
 ITER = ["iter-open", "iter-drain", "set x=2", "set y=1", "del x", "release", "cleanup", "newlist", "append"]
 ITER6 = ["iter-open", "iter-drain", "set x=2", "set y=1", "del x", "release"]
-ALPH = {"iter": ITER, "iter6": ITER6, "box": BOX, "box6": BOX6, "boxline": BOX_LINE, "falsy": FALSY, "falsy10": FALSY10, "falsy6": FALSY6, "falsyline": FALSY_LINE, "full": FULL, "mid": MID, "fullline": FULL_LINE, "writes": WRITES, "core6": CORE6, "core4": CORE4,
+# wave 6 (seed C18-6a): None ON the stack (top is None although the stack is not empty) - a release / cleanup /
+# middleware close must still drop everything: the whole stack is compared, later pops and children included
+NONE = ["push N", "push 0", "push 2", "release", "release st", "cleanup", "cleanup0", "mw", "pop", "proxy top"]
+NONE5 = ["push N", "release", "cleanup", "pop", "push 2"]
+NONE_LINE = ["push N", "release", "pop", "rd top"]
+ALPH = {"none": NONE, "none5": NONE5, "noneline": NONE_LINE, "iter": ITER, "iter6": ITER6, "box": BOX, "box6": BOX6, "boxline": BOX_LINE, "falsy": FALSY, "falsy10": FALSY10, "falsy6": FALSY6, "falsyline": FALSY_LINE, "full": FULL, "mid": MID, "fullline": FULL_LINE, "writes": WRITES, "core6": CORE6, "core4": CORE4,
         "line8": LINE8, "proxy": PROXY, "proxy10": PROXY10, "proxy6": PROXY6, "twin": TWIN, "twin6": TWIN6, "mw": MW, "mw6": MW6,
         "hop": HOP, "hop6": HOP6}
 EXT_ALPH = {"proxy", "proxy10", "proxy6", "twin", "twin6", "mw", "mw6", "hop", "hop6"}   # families run in the extended world
@@ -784,6 +794,9 @@ QUICK = [
     ("S3", "core4", 1, ("used",), ("thr", "aio")),
     ("S2", "writes", 2, ("used",), ("aio",)),
     ("PC", "core6", 2, ("empty", "used"), ("aio",)),
+    ("S2", "none", 2, ("used", "falsy"), ("ctx",)),
+    ("PC", "none5", 2, ("used",), ("ctx",)),
+    ("S2", "none5", 2, ("used",), ("thr", "aio")),
     ("S2", "iter6", 2, ("empty", "used"), ("ctx",)),
     ("PC", "iter6", 2, ("used",), ("ctx",)),
     ("S2", "iter6", 2, ("used",), ("aio",)),
@@ -828,6 +841,10 @@ THOROUGH = [
     ("S3", "core4", 2, ("empty",), ("ctx",)),
     ("S3", "core4", 2, ("empty", "used"), ("aio",)),
     ("S3", "writes", 1, ("empty", "used"), ("ctx", "thr", "aio")),
+    ("S2", "none", 2, ("empty", "used", "falsy"), ("ctx", "aio", "thr")),
+    ("S2", "none5", 3, ("empty", "used"), ("ctx",)),
+    ("PC", "none", 2, ("used", "falsy"), ("ctx", "aio")),
+    ("PC", "none5", 2, ("empty", "used"), ("thr", "aiox")),
     ("S2", "iter", 2, ("empty", "used"), ("ctx", "aio")),
     ("S2", "iter6", 2, ("empty", "used"), ("thr", "aiox")),
     ("S2", "iter6", 3, ("used",), ("ctx",)),
@@ -873,12 +890,12 @@ THOROUGH = [
 #   NB the line-level oracle is "every context behaves as if alone", which does not hold for a list shared BY VALUE
 #   (the order of appends is the schedule): line families never combine a start that stores a list with `append`
 #   "S2": two sibling threads;  "PC": the parent thread spawns the child thread (copy_context) at every position
-LINE_QUICK = [("S2", "boxline", 1, ("empty",), 1), ("S2", "falsyline", 1, ("falsy",), 1), ("S2", "fullline", 1, ("used-nolist",), 1),
+LINE_QUICK = [("S2", "noneline", 1, ("used-nolist",), 1), ("S2", "boxline", 1, ("empty",), 1), ("S2", "falsyline", 1, ("falsy",), 1), ("S2", "fullline", 1, ("used-nolist",), 1),
               ("S2", "fullline", 1, ("empty",), 1), ("S2", "core4", 1, ("used-nolist",), 2),
               ("S2", "core4", 2, ("used-nolist",), 1), ("S2", "mw6", 1, ("used-nolist",), 1),
               ("S2", "twin6", 1, ("used2",), 1), ("PC", "core4", 1, ("used-nolist",), 2),
               ("PC", "core4", 2, ("used-nolist",), 1)]
-LINE_THOROUGH = [("S2", "boxline", 1, ("empty",), 2), ("S2", "boxline", 2, ("empty",), 1),
+LINE_THOROUGH = [("S2", "noneline", 1, ("used-nolist",), 2), ("S2", "noneline", 2, ("used-nolist",), 1), ("S2", "boxline", 1, ("empty",), 2), ("S2", "boxline", 2, ("empty",), 1),
                  ("S2", "falsyline", 1, ("empty", "falsy"), 2), ("S2", "falsyline", 2, ("falsy",), 1),
                  ("PC", "falsy6", 2, ("falsy",), 1),
                  ("S2", "fullline", 1, ("empty", "used-nolist"), 2), ("S2", "core4", 2, ("empty", "used-nolist"), 2),
@@ -1331,6 +1348,7 @@ def finalize(R, tier):
         need |= {"out:get x:val", "out:get x:AE", "out:top:val", "out:top:None", "out:proxy cv:unbound",
                  "out:bat cv:bound", "out:bat cv:unbound", "out:tt:append:RE", "out:tt:del x:AE",
                  "out:ex:get x:AE", "out:tt:del x:None", "out:tt:append:None"}
+    need |= {"op:push N", "out:proxy top:unbound", "out:pop:None"}
     need |= {"op:iter-open", "op:iter-drain", "out:iter-drain:val", "out:iter-drain:NOTOPEN"}
     need |= {"op:pushbox 1", "op:rebind 3", "out:proxy v:bound", "out:proxy v:unbound", "out:rebind 3:None",
              "out:rebind 3:NOBOX", "start:boxed"}
